@@ -91,6 +91,8 @@ pub fn exercise<K: Fam>(e: &Enr<K>) -> Result<u64, String> {
     g!("NodeId::from(&enr)", NodeId::from(e));
     g!("NodeId::from(enr)", NodeId::from(e.clone()));
     g!("encode", alloy_rlp::encode(e));
+    g!("length", alloy_rlp::Encodable::length(e));
+    g!("encode list", alloy_rlp::encode(&vec![e.clone()]));
     g!("NodeId Debug/Display", format!("{:?} {}", e.node_id(), e.node_id()));
     Ok(n + 46)
 }
@@ -119,7 +121,7 @@ impl<'a> Visitor for V<'a> {
             if malformed_arg(op) {
                 self.nontrivial = true;
             }
-        } else if let Init::Builder { calls } = &cx.h.init {
+        } else if let Init::Builder { calls } | Init::BuilderReuse { calls, .. } = &cx.h.init {
             if calls.iter().any(|c| matches!(c, BCall::AddValueRlp { .. })) {
                 self.nontrivial = true;
             }
@@ -224,7 +226,7 @@ impl Property for C03 {
     }
     fn gen(&self, c: &mut Choices) -> Case {
         match c.below(10) {
-            0..=3 => Case::Hist(history::gen_history(c, None)),
+            0..=3 => Case::Hist(history::gen_history_cross(c)),
             4 | 5 => {
                 // wire: C01-style
                 match crate::props::c01::C01.gen(c) {
